@@ -1147,7 +1147,7 @@ fn jk_strategy() -> BoxedStrategy<Jk> {
 }
 
 fn from_strategy(depth: u32) -> BoxedStrategy<Fr> {
-    let table = (0u8..4, prop::bool::weighted(0.25)).prop_map(|(t, a)| Fr::T(t, a)).boxed();
+    let table = (0u8..20, prop::bool::weighted(0.25)).prop_map(|(t, a)| Fr::T(t, a)).boxed();
     if depth == 0 {
         return prop_oneof![9 => table, 1 => (0u8..2).prop_map(Fr::Cte)].boxed();
     }
